@@ -227,6 +227,24 @@ func (ss *segmentStack) ensureFullySorted() {
 	}
 }
 
+// hasMergeOperands returns true when a segment of this stack, or of
+// one of its child stacks, carries unresolved merge operands.  Such a
+// stack must not be kept as a cache of persisted data: reading it on
+// top of the lower level would fold the operands a second time.
+func (ss *segmentStack) hasMergeOperands() bool {
+	for _, seg := range ss.a {
+		if a, ok := seg.(*segment); ok && a.totOperationMerge > 0 {
+			return true
+		}
+	}
+	for _, childSegStack := range ss.childSegStacks {
+		if childSegStack.hasMergeOperands() {
+			return true
+		}
+	}
+	return false
+}
+
 func (ss *segmentStack) isEmpty() bool {
 	if len(ss.a) > 0 {
 		return false
